@@ -41,6 +41,8 @@ RULE = ("perm: bases of 2-5 shells, l in 0..3 with at least two different l, seg
         "point charge) x natural scale sqrt(X_aa X_bb) (momentum: sqrt(2 T_aa S_bb)); eri8: 8 orientations, "
         "1e-6 x Schwarz; a case is non-trivial when some l > 0 and the array is not identically zero; distinct by "
         "the hash of the exact input")
+EXTRA = {"known_finding_id": "C11-eri-bra-tight-ket-diffuse",
+         "coq_files": ["Proofs/PermP.v", "Proofs/OrientP.v", "Proofs/PermEx.v", "Props/C11.v"]}
 ASSUMPTIONS = [
     "floating-point rounding is not modelled: 'the same array up to a permutation' is decided at rounding level "
     "(1e-10 of the scale), the eight-fold / orientation symmetry of ERI blocks at 1e-6 of the Schwarz scale",
@@ -283,8 +285,11 @@ def eval_perm(model, case):
     ntot = sum(nfs)
     types = "".join("s" if s.sph else "c" for s in basis)
     tag = "perm %s n=%d" % (fn, len(basis))
-    stats = {"perm:permutations": len(case["perms"]), "perm:%s" % types.replace("c", "C"): 1,
-             "perm:l=" + "".join(str(s.l) for s in sorted(basis, key=lambda s: s.l)): 1}
+    stats = {"perm:permutations": len(case["perms"]),
+             "perm:types all-cart" if "s" not in types else ("perm:types all-sph" if "c" not in types
+                                                              else "perm:types mixed"): 1,
+             "perm:lmax=%d" % max(s.l for s in basis): 1,
+             "perm:distinct-M=%d" % len(set(len(s.coeffs[0]) for s in basis)): 1}
     if fn == "density":
         prm["_P"] = density_matrix(prm["pseed"], ntot)
     gb = [s.to_gbasis() for s in basis]
@@ -428,7 +433,7 @@ def eval_orient(model, case):
     prm = case.get("prm") or {}
     sa, sb = XShell.from_json(case["a"]), XShell.from_json(case["b"])
     ga, gb = sa.to_gbasis(), sb.to_gbasis()
-    tag = "orient %s l=%d,%d" % (op, sa.l, sb.l)
+    tag = "orient %s" % op
     st, Xab = call_impl(_block, op, ga, gb, prm)
     st2, Xba = call_impl(_block, op, gb, ga, prm)
     if st != "ok" or st2 != "ok":
@@ -445,7 +450,9 @@ def eval_orient(model, case):
         tol = np.broadcast_to(tol, Xab.shape).copy()
     nontriv = bool(np.any(Xab != 0)) and (sa.l + sb.l > 0)
     out = {"nontrivial": nontriv, "tag": tag, "detail": None,
-           "stats": {"orient:swap-path" if sa.l < sb.l else "orient:noswap-path": 1}}
+           "stats": {"orient:swap-path(la<lb)" if sa.l < sb.l else "orient:noswap-path": 1,
+                     "orient:l=%d,%d" % (sa.l, sb.l): 1,
+                     "orient:exponent-ratio>=1e3": int(float(max(sa.exps + sb.exps) / min(sa.exps + sb.exps)) >= 1e3)}}
     d = worst_diff(Xab, back, tol)
     exact = None
     if d is not None or case.get("model"):
@@ -480,15 +487,34 @@ def eval_orient(model, case):
 # ERI quartets in eight orientations
 # ------------------------------------------------------------------------------------------------
 def eri_amp(shells, orient):
-    """amplification of rounding noise by the electron-transfer recursion for the call
-    ERI(s[o0], s[o1], s[o2], s[o3]): each of the l_c + l_d transfer steps multiplies by (p/q) and the result is
-    smaller than the terms by (p/q)^(1/2) per step (_two_elec_int.py:431-526), p = exponent sum of the bra pair,
-    q = of the ket pair; worst primitive pair."""
+    """Estimated amplification of rounding noise in the call ERI(s[o0], s[o1] | s[o2], s[o3]) (a b|c d), from the
+    INPUT only (worst primitive quartet).  With p = alpha_a + alpha_b, q = alpha_c + alpha_d, P, Q the product
+    centres, L_p = max(|P-A|, p^-1/2), L_q = max(|Q-C|, q^-1/2):
+      * electron transfer (_two_elec_int.py:431-526): each of the l_c + l_d steps forms
+        (QC + (p/q) PA) [a|c] - (p/q) [a+1|c] + ...; the terms are (p/q) L_p times [a|c], the result only L_q
+        times it: factor max(1, (p/q) L_p / L_q) per step (= sqrt(p/q) for a tight bra pair on one centre and a
+        diffuse ket pair on one centre; far larger when the FIRST bra shell is diffuse and far from P);
+      * horizontal recursions [a, b+1| = [a+1, b| + AB [a, b|: factor max(1, |AB| / max(|PB|, p^-1/2)) per unit
+        of l_b, likewise |CD| / max(|QD|, q^-1/2) per unit of l_d."""
     a, b, c, d = (shells[i] for i in orient)
-    p = float(max(a.exps) + max(b.exps))
-    q = float(min(c.exps) + min(d.exps))
-    n = c.l + d.l
-    return max(1.0, p / q) ** (n / 2.0)
+    A, B, C, D = (np.array([float(x) for x in s.coord]) for s in (a, b, c, d))
+    nAB, nCD = float(np.linalg.norm(A - B)), float(np.linalg.norm(C - D))
+    worst = 1.0
+    for ea in a.exps:
+        for eb in b.exps:
+            p = float(ea + eb)
+            P = (float(ea) * A + float(eb) * B) / p
+            Lp = max(float(np.linalg.norm(P - A)), p ** -0.5)
+            hb = max(1.0, nAB / max(float(np.linalg.norm(P - B)), p ** -0.5)) ** b.l
+            for ec in c.exps:
+                for ed in d.exps:
+                    q = float(ec + ed)
+                    Q = (float(ec) * C + float(ed) * D) / q
+                    Lq = max(float(np.linalg.norm(Q - C)), q ** -0.5)
+                    et = max(1.0, (p / q) * Lp / Lq) ** (c.l + d.l)
+                    hk = max(1.0, nCD / max(float(np.linalg.norm(Q - D)), q ** -0.5)) ** d.l
+                    worst = max(worst, et * hb * hk)
+    return worst
 
 
 def _eri_block(gs):
@@ -512,7 +538,7 @@ def _pair_diag(g1, g2):
 def eval_eri8(model, case):
     shells = [XShell.from_json(s) for s in case["shells"]]
     gs = [s.to_gbasis() for s in shells]
-    tag = "eri8 %s l=%s" % (case.get("family", "regular"), "".join(str(s.l) for s in shells))
+    tag = "eri8 %s" % case.get("family", "regular")
     Z = []
     for o in ERI_ORIENTS:
         st, Y = call_impl(_eri_block, [gs[i] for i in o])
@@ -522,35 +548,43 @@ def eval_eri8(model, case):
     with np.errstate(all="ignore"):
         d12, d34 = _pair_diag(gs[0], gs[1]), _pair_diag(gs[2], gs[3])
     sc = d12[:, :, :, :, None, None, None, None] * d34[None, None, None, None]
-    tol = 1e-6 * sc + 1e-14 * max(float(sc.max()), 1e-300)
+    scmax = float(sc.max()) if sc.size else 0.0
+    # 1e-6 of the Schwarz scale (as in C04) + a rounding-level floor relative to the largest element of the block
+    # + an absolute floor (blocks below 1e-24 are underflow territory: exp(-mu R^2) of far-apart tight shells)
+    tol = 1e-6 * sc + 1e-14 * scmax + 1e-24
     amps = [eri_amp(shells, o) for o in ERI_ORIENTS]
-    stats = {"eri8:orientations": 8}
+    stats = {"eri8:orientations": 8, "eri8:L=%d" % sum(s.l for s in shells): 1,
+             "eri8:some-orientation-amp>=1e6": int(max(amps) >= 1e6)}
     ref, refname = None, None
-    if case.get("model") and model is not None:
+    kmin = min(range(8), key=lambda t: (amps[t], t))
+    if model is not None and (case.get("model") or 1e4 * EPS * amps[kmin] > 1e-7):
+        # asked for, or no orientation is well conditioned: arbitrate with the exact model
         ref = model_array(model.call("(20 %s)" % " ".join(s.sx() for s in shells)))
         refname = "exact model"
         stats["eri8:model-compared"] = 1
     else:
-        k = min(range(8), key=lambda t: (amps[t], t))
-        ref, refname = Z[k], "orientation %s" % (ERI_ORIENTS[k],)
+        ref, refname = Z[kmin], "orientation %s (best conditioned, amp %.3g)" % (ERI_ORIENTS[kmin], amps[kmin])
     bad = []
     for o, z, amp in zip(ERI_ORIENTS, Z, amps):
         if not np.all(np.isfinite(z)):
-            bad.append({"orient": list(o), "dev_schwarz": float("inf"), "amp": amp})
+            bad.append({"orient": list(o), "dev_schwarz": float("inf"), "dev_block": float("inf"), "amp": amp})
             continue
-        ratio = np.abs(z - ref) / tol
+        diff = np.abs(z - ref)
+        ratio = diff / tol
         i = np.unravel_index(int(np.argmax(ratio)), ratio.shape)
         if ratio[i] > 1.0:
-            bad.append({"orient": list(o), "dev_schwarz": float(ratio[i] * 1e-6), "amp": amp,
+            bad.append({"orient": list(o), "dev_schwarz": float(ratio[i] * 1e-6),
+                        "dev_block": float(diff.max() / max(scmax, 1e-300)), "amp": amp,
                         "index": [int(x) for x in i], "value": repr(float(z[i])), "reference": repr(float(ref[i])),
-                        "schwarz": float(sc[i])})
+                        "schwarz": float(sc[i]), "schwarz_max": scmax})
     nontriv = bool(np.any(Z[0] != 0)) and any(s.l > 0 for s in shells)
     out = {"nontrivial": nontriv, "tag": tag, "stats": stats, "detail": None}
     if bad:
         stats["eri8:asymmetric"] = 1
         out["detail"] = {"kind": "orientation-eri", "reference": refname, "bad": bad,
-                         "note": "dev_schwarz = |value - reference| / Schwarz scale (tolerance 1e-6); amp = "
-                                 "(p_bra/q_ket)^((l3+l4)/2) of that call"}
+                         "note": "dev_schwarz = |value - reference| / elementwise Schwarz scale (tolerance 1e-6); "
+                                 "dev_block = max|value - reference| / largest Schwarz product of the block; amp = "
+                                 "eri_amp(input, orientation), the estimated noise amplification of that call"}
     return out
 
 
@@ -582,18 +616,22 @@ def _known_entry():
 
 
 def known(case, detail):
-    """Narrow predicate on the INPUT quartet (recomputed here, not taken from the detail): an orientation
-    (sa sb|sc sd) may deviate by up to C * 2^-53 * (p_bra_max / q_ket_min)^((l_c + l_d)/2) Schwarz units
-    (C = 1000) - only calls whose bra pair is tight and whose ket pair is diffuse with l_c + l_d >= 2 qualify
-    (amp >= 9e6).  Every deviating orientation must qualify, otherwise the case is a violation."""
+    """Narrow predicate on the INPUT quartet (eri_amp is recomputed here from the case, not taken from the
+    detail): the call (so0 so1|so2 so3) may deviate from the reference (exact model / best-conditioned
+    orientation) by at most C * 2^-53 * eri_amp(input, orientation) times the largest Schwarz product of the
+    block, C = predicate_constant of the KNOWN_FINDINGS entry (1e4; measured: <= 263 over 436 deviating calls of
+    2200 random quartets).  Only calls with eri_amp >= 9e5 can therefore exceed the 1e-6 tolerance and stay
+    'known': a tight bra pair with a diffuse high-l ket pair, or a bra pair whose first shell is diffuse and far
+    from a tight partner.  EVERY deviating orientation of the case must qualify, otherwise it is a violation;
+    without the entry in KNOWN_FINDINGS.json nothing is suppressed."""
     ent = _known_entry()
     if not ent or case.get("kind") != "eri8" or detail.get("kind") != "orientation-eri":
         return None
-    C = float(ent.get("predicate_constant", 1000.0))
+    C = float(ent.get("predicate_constant", 1e4))
     shells = [XShell.from_json(s) for s in case["shells"]]
     for b in detail["bad"]:
         amp = eri_amp(shells, tuple(b["orient"]))
-        if not (b["dev_schwarz"] <= C * EPS * amp):
+        if not (b["dev_block"] <= C * EPS * amp):
             return None
     return "%s: %s" % (KNOWN_ID, ent.get("text", ""))
 
@@ -706,7 +744,7 @@ def gen_perm_cases(tier, rng):
     cases = []
     quick = tier == "quick"
     # ---- two-index and one-index functions: every function x every shell count ----
-    reps = {2: 1, 3: 1, 4: 1, 5: 1} if quick else {2: 6, 3: 6, 4: 4, 5: 3}
+    reps = {2: 1, 3: 1, 4: 1, 5: 1} if quick else {2: 24, 3: 24, 4: 14, 5: 8}
     for n in (2, 3, 4, 5):
         for rep_i in range(reps[n]):
             for fn in TWO_FNS + ONE_FNS:
@@ -723,7 +761,8 @@ def gen_perm_cases(tier, rng):
                     cases.append({"kind": "perm", "fn": fn, "basis": [s.to_json() for s in shells], "perms": ch,
                                   "prm": prm, "model": bool(ci == 0 and (small or rep_i == 0 and n <= 3))})
     # ---- overlap_asymmetric: two bases permuted independently ----
-    for n1, n2 in ([(2, 3), (3, 2)] if quick else [(2, 2), (2, 3), (3, 2), (3, 3), (4, 2), (1, 4), (2, 4), (3, 4)]):
+    for n1, n2 in ([(2, 3), (3, 2)] if quick else
+                   3 * [(2, 2), (2, 3), (3, 2), (3, 3), (4, 2), (1, 4), (2, 4), (3, 4), (4, 4), (2, 5)]):
         both = gen_perm_basis(rng, n1 + n2, lmax=3, nf_cap=40)
         b1, b2 = both[:n1], both[n1:]
         ps1 = [list(p) for p in itertools.permutations(range(n1))]
@@ -737,8 +776,12 @@ def gen_perm_cases(tier, rng):
     eri_specs = [(2, [0, 1], 2), (3, [0, 1, 1], 2), (3, [0, 1, 2], 1), (4, [0, 0, 1, 1], 1)] if quick else \
         [(2, [0, 1], 2), (2, [1, 2], 2), (2, [0, 2], 3), (3, [0, 1, 1], 2), (3, [0, 1, 2], 2), (3, [1, 1, 2], 1),
          (3, [0, 0, 3], 1), (4, [0, 0, 1, 1], 2), (4, [0, 1, 1, 2], 1), (5, [0, 0, 0, 1, 1], 1)]
+    if not quick:
+        eri_specs = 3 * eri_specs + [(3, [0, 2, 2], 1), (4, [0, 1, 2, 2], 1), (4, [0, 0, 1, 3], 1), (5, [0, 0, 1, 1, 2], 1)]
     for n, ls, mmax in eri_specs:
-        shells = gen_perm_basis(rng, n, lset=ls, kmax=2, mmax=mmax, exp_lo=0.1, exp_hi=30.0, nf_cap=16)
+        wide = max(ls) < 3
+        shells = gen_perm_basis(rng, n, lset=ls, kmax=2, mmax=mmax, exp_lo=0.1 if wide else 0.2,
+                                exp_hi=30.0 if wide else 20.0, nf_cap=22 if not quick else 16)
         perms = perms_of(rng, n, 8)
         if n == 4 and quick:
             perms = rng.sample(perms, 9)
@@ -754,7 +797,7 @@ def gen_orient_cases(tier, rng):
     cases = []
     quick = tier == "quick"
     ops = ["overlap", "kinetic", "moment", "momentum", "angmom", "pointcharge"]
-    reps = 1 if quick else 4
+    reps = 1 if quick else 16
     for rep_i in range(reps):
         for la, lb in itertools.product(range(4), range(4)):
             for op in ops:
@@ -781,7 +824,7 @@ def gen_orient_cases(tier, rng):
                 if op == "pointcharge":
                     prm = {"pts": twoindex_place(rng, [sa.coord, sb.coord], rng.randint(1, 3))}
                 cases.append({"kind": "orient", "op": op, "a": sa.to_json(), "b": sb.to_json(), "prm": prm,
-                              "model": bool(rep_i == 0 and (la + lb) <= 4 and rng.random() < (0.35 if quick else 0.6))})
+                              "model": bool(rep_i < 4 and (la + lb) <= 4 and rng.random() < (0.35 if quick else 0.6))})
     return cases
 
 
@@ -804,7 +847,7 @@ def gen_eri8_cases(tier, rng):
     if quick:
         pats = rng.sample(pats, 22)
     else:
-        pats = rng.sample(pats, 110)
+        pats = pats + pats                       # every l pattern with total L <= 6, twice
     for p in pats:
         L = sum(p)
         shells = [gen_shell(rng, l=l, kmax=2 if L <= 4 else 1, mmax=2 if L <= 3 else 1, sph=False,
@@ -822,7 +865,7 @@ def gen_eri8_cases(tier, rng):
     # tight core s/p pair x diffuse p/d/f pair (the pattern of a heavy atom next to a diffuse-augmented one)
     specs = [((0, 0), (1, 1)), ((0, 0), (2, 2)), ((0, 0), (2, 3)), ((0, 1), (2, 2)), ((0, 0), (3, 3)),
              ((1, 1), (2, 2)), ((0, 0), (0, 2)), ((0, 1), (1, 3))]
-    nrep = 1 if quick else 4
+    nrep = 1 if quick else 12
     for rep_i in range(nrep):
         for lt, ld in specs:
             if quick and sum(lt) + sum(ld) > 6:
